@@ -123,6 +123,13 @@ static std::vector<Op> alphabet()
     for (int d = 0; d < 3; ++d)
         for (int i = 0; i < 2; ++i)
             a.push_back({'r', d, i, 0});
+    // refresh: update() is handed a packet the tracker ITSELF stores (a reference into its own storage) - the device's capture-module
+    // packet, or an interface packet of it. It is that device's latest message already, so nothing changes.
+    for (int d = 0; d < 3; ++d)
+        a.push_back({'A', d, 0, 0});
+    for (int d = 0; d < 2; ++d)
+        for (int i = 0; i < 2; ++i)
+            a.push_back({'a', d, i, 0});
     a.push_back({'X', 0, 0, 0});
     return a;
 }
@@ -135,6 +142,8 @@ static std::string opName(const Op& o)
         case 'I': return fmt("if(d%d,i%u,%c)", kDev[o.d], kIf[o.i], 'a' + o.v);
         case 'D': return fmt("data(d%d)", kDev[o.d]);
         case 'O': return fmt("%s-status(d%d)", o.v ? "vendor" : "conf", kDev[o.d]);
+        case 'A': return fmt("refresh-own-cm(d%d)", kDev[o.d]);
+        case 'a': return fmt("refresh-own-if(d%d,i%u)", kDev[o.d], kIf[o.i]);
         case 'R': return fmt("removeDevice(d%d)", kDev[o.d]);
         case 'r': return fmt("removeInterface(d%d,i%u)", kDev[o.d], kIf[o.i]);
         default: return "clear";
@@ -189,6 +198,25 @@ static void apply(Sys& s, const Op& o)
         case 'I': s.s.update(P.ifp[o.d][o.i][o.v]); s.m.updateIf(kDev[o.d], kIf[o.i], 1000 + o.d * 100 + o.i * 10 + o.v); break;
         case 'D': s.s.update(P.data[o.d]); break;
         case 'O': s.s.update(otherStatusPacket(o.d, o.v)); break;
+        case 'A':
+        {
+            size_t idx = s.s.getIndexByDeviceId(kDev[o.d]);
+            if (idx < s.s.getDeviceStatusCount())
+                s.s.update(s.s.getDeviceStatus(idx).getPacket());
+            break;
+        }
+        case 'a':
+        {
+            size_t idx = s.s.getIndexByDeviceId(kDev[o.d]);
+            if (idx < s.s.getDeviceStatusCount())
+            {
+                DeviceStatus& ds = s.s.getDeviceStatus(idx);
+                size_t ii = ds.getIndexByInterfaceId(kIf[o.i]);
+                if (ii < ds.getInterfaceStatusCount())
+                    s.s.update(ds.getInterfaceStatus(ii).getPacket());
+            }
+            break;
+        }
         case 'R': s.s.removeDeviceById(kDev[o.d]); s.m.removeDevice(kDev[o.d]); break;
         case 'r':
         {
@@ -336,6 +364,7 @@ static std::vector<int> sharpAlphabet()
         {
             case 'C': in = o.v == 0; break;
             case 'I': in = (o.i == 0 && o.v == 0) || (o.d == 0 && (o.i == 0 || o.v == 0)); break;
+            case 'A': in = o.d == 0; break;   // (the full-alphabet tree has every refresh operation)
             case 'R': in = true; break;
             case 'r': in = o.d == 0 && o.i == 0; break;
             case 'X': in = true; break;
